@@ -17,17 +17,22 @@ Open Scope N_scope.
 (* ====================================================================== *)
 (* outcomes                                                               *)
 (* ====================================================================== *)
-Inductive rres := ROk (y : bytes) | RErr | RCrash.      (* a read: bytes delivered / error / panic *)
+Inductive rres := ROk (y : bytes) | RErr | RCrash.      (* a read loop: bytes delivered / error / panic *)
 Inductive ures := UOk | UErr | UCrash.                   (* Reset, Close, Write *)
-Inductive dout := OU (u : ures) | OR (r : rres).         (* outcome of one decompressor step *)
+(* ONE call Read(p): the bytes put into p and the error value returned with them
+   (nil / io.EOF / anything else), or a panic *)
+Inductive pstat := SNil | SEof | SErr.
+Inductive pres := PRes (z : bytes) (st : pstat) | PCrash.
+Inductive dout := OU (u : ures) | OR (r : rres) | OP (p : pres).   (* outcome of one decompressor step *)
 
 Definition is_crash (o : dout) : bool :=
-  match o with OU UCrash | OR RCrash => true | _ => false end.
+  match o with OU UCrash | OR RCrash | OP PCrash => true | _ => false end.
 Definition u_of_ok (b : bool) : ures := if b then UOk else UErr.
 
-(* operations a caller performs on a connect.Decompressor; a read is io.ReadAll (None)
-   or io.ReadAll(io.LimitReader(d, n)) (Some n) *)
-Inductive dop := DReset (s : bytes) | DRead (n : option N) | DClose.
+(* operations a caller performs on a connect.Decompressor; DRead is a read LOOP: io.ReadAll (None)
+   or io.ReadAll(io.LimitReader(d, n)) (Some n); DReadN n is ONE call Read(p) with len(p) = n
+   (n = 0 included) *)
+Inductive dop := DReset (s : bytes) | DRead (n : option N) | DClose | DReadN (n : N).
 (* ... and on a connect.Compressor *)
 Inductive cop := CReset | CWrite (b : bytes) | CClose.
 
@@ -47,6 +52,7 @@ Section Wrappers.
   Variable l_new : bytes -> option inst * ures.         (* NewReader(src) *)
   Variable l_reset : inst -> bytes -> inst * ures.      (* Reset(src) *)
   Variable l_read : inst -> option N -> inst * rres.
+  Variable l_readn : inst -> N -> inst * pres.          (* one Read(p), len(p) = n *)
   Variable l_close : inst -> inst * ures.
   (* ---- a third-party writer object; writes and Close emit bytes to the destination ---- *)
   Variable winst : Type.
@@ -139,6 +145,25 @@ Section Wrappers.
     | DSentinel, DReset _ => (st, OU UErr)
     | DSentinel, DRead _ => (st, OR RErr)
     | DSentinel, DClose => (st, OU UErr)
+    (* ---- ONE Read(p), len(p) = n.  identity: the source is a buffer (bytes.Buffer: io.EOF only
+            when it is empty and len(p) > 0); the wrappers with a nil check answer (0, io.EOF);
+            brotli / snappy forward; the sentinel answers (0, err) *)
+    | DIdent None, DReadN _ => (st, OP PCrash)
+    | DIdent (Some rem), DReadN n =>
+      (DIdent (Some (skipn (N.to_nat n) rem)),
+       OP (PRes (firstn (N.to_nat n) rem)
+                (match rem with [] => if 0 <? n then SEof else SNil | _ => SNil end)))
+    | DGzip None, DReadN _ => (st, OP (PRes [] SEof))
+    | DGzip (Some i), DReadN n => let '(i', r) := l_readn i n in (DGzip (Some i'), OP r)
+    | DBrotli None, DReadN _ => (st, OP PCrash)
+    | DBrotli (Some i), DReadN n => let '(i', r) := l_readn i n in (DBrotli (Some i'), OP r)
+    | DSnappy i, DReadN n => let '(i', r) := l_readn i n in (DSnappy i', OP r)
+    | DZstd None, DReadN _ => (st, OP (PRes [] SEof))
+    | DZstd (Some i), DReadN n => let '(i', r) := l_readn i n in (DZstd (Some i'), OP r)
+    | DDeflate RNil, DReadN _ => (st, OP (PRes [] SEof))
+    | DDeflate (RZlib i), DReadN n => let '(i', r) := l_readn i n in (DDeflate (RZlib i'), OP r)
+    | DDeflate RSent, DReadN _ => (st, OP (PRes [] SErr))
+    | DSentinel, DReadN _ => (st, OP (PRes [] SErr))
     end.
 
   (* a history on one instance; a panic ends it *)
@@ -329,6 +354,24 @@ Definition toy_read (loud : bool) (i : lview) (n : option N) : lview * rres :=
   | Failed => (Failed, RErr)
   | Closed => (Closed, RErr)
   end.
+(* one Read(p): the stand-in fills p as far as it can; `eager`: io.EOF comes together with the
+   last bytes (true) or with the next, empty, read (false) — both are allowed by io.Reader *)
+Definition toy_readn (loud eager : bool) (i : lview) (n : N) : lview * pres :=
+  match i with
+  | NoSrc => (NoSrc, if loud then PCrash else PRes [] SErr)
+  | At y false =>
+    let z := firstn (N.to_nat n) y in
+    let y' := skipn (N.to_nat n) y in
+    (At y' false,
+     PRes z (match y' with
+             | [] => if (0 <? n) && (eager || match y with [] => true | _ => false end) then SEof else SNil
+             | _ => SNil end))
+  | At y true =>
+    if n <? N.of_nat (length y) then (At (skipn (N.to_nat n) y) true, PRes (firstn (N.to_nat n) y) SNil)
+    else (Failed, PRes [] SErr)
+  | Failed => (Failed, PRes [] SErr)
+  | Closed => (Closed, PRes [] SErr)
+  end.
 Definition toy_close (i : lview) : lview * ures :=
   match i with
   | NoSrc => (Closed, UOk)
@@ -355,10 +398,12 @@ Definition toy_wclose (w : wview) : wview * ures * bytes :=
 
 Definition kind_loud (k : wkind) : bool := match k with KZstd => false | _ => true end.
 Definition kind_closed_ok (k : wkind) : bool := match k with KZstd => false | _ => true end.
+Definition kind_eager (k : wkind) : bool := match k with KBrotli | KSnappy => true | _ => false end.
 
 Definition toy_d_init (k : wkind) := d_init lview NoSrc k.
 Definition toy_d_step (k : wkind) :=
-  d_step lview toy_new (toy_reset (kind_closed_ok k)) (toy_read (kind_loud k)) toy_close.
+  d_step lview toy_new (toy_reset (kind_closed_ok k)) (toy_read (kind_loud k))
+         (toy_readn (kind_loud k) (kind_eager k)) toy_close.
 Definition toy_c_init (k : wkind) := c_init wview WNoDst k.
 Definition toy_c_step := c_step wview toy_wreset toy_wwrite toy_wclose.
 
@@ -372,6 +417,52 @@ Definition toy_c_step := c_step wview toy_wreset toy_wwrite toy_wclose.
 Inductive dpos := DFresh | DP1 | DP2 | DU.
 Inductive cpos := CFresh | COpen | CDone.
 
+(* ---- the projection applied to the outcomes of a decompressor history (by this glue and, with the
+   same rule, by the Go harness).  It follows the instance with what a FRESH reader makes of each
+   source (d s): DFresh no Reset yet; DP1 positioned on a source that decodes, `rem` still to come;
+   DP2 positioned on a source that fails after some bytes; DU anything else.  Reported:
+     every Reset in full; in DP1 every read as "did it deliver what was to come" (a read loop: exactly
+     the next bytes; ONE Read(p): some prefix of them, at most len(p), no error, io.EOF only together
+     with or after the last byte — how many bytes one Read delivers is the library's choice) and Close in
+     full; in DP2 the unlimited read loop (it must fail); everything else only as panicked / did not. *)
+Inductive pobs := PFullU (u : ures) | PFlag (b : bool) | PErrR | PAny | PPanic.
+
+Definition chunk_ok (n : N) (rem z : bytes) (st : pstat) : bool :=
+  has_prefix z rem && (N.of_nat (length z) <=? n) &&
+  match st with SErr => false | SEof => (length rem <=? length z)%nat | SNil => true end.
+
+Definition obs_step (d : bytes -> dres) (ps : dpos * bytes) (op : dop) (o : dout) : (dpos * bytes) * pobs :=
+  let '(pos, rem) := ps in
+  if is_crash o then ((DU, []), PPanic) else
+  match op, o with
+  | DReset s, OU u =>
+    (match u, d s with
+     | UOk, Body y false => (DP1, y)
+     | UOk, Body y true => (DP2, y)
+     | _, _ => (DU, [])
+     end, PFullU u)
+  | DRead n, OR r =>
+    let full := match pos, n with DP1, _ => true | DP2, None => true | _, _ => false end in
+    let pos' := match pos, r with DP1, ROk _ => DP1 | DFresh, _ => DFresh | _, _ => DU end in
+    let rem' := match r with ROk y => skipn (length y) rem | _ => rem end in
+    ((pos', rem'),
+     if full then match r with ROk y => PFlag (bytes_eqb y (take n rem)) | _ => PErrR end else PAny)
+  | DReadN n, OP (PRes z st) =>
+    let pos' := match pos, st with DP1, (SNil | SEof) => DP1 | DFresh, _ => DFresh | _, _ => DU end in
+    ((pos', skipn (length z) rem),
+     match pos with DP1 => PFlag (chunk_ok n rem z st) | _ => PAny end)
+  | DClose, OU u =>
+    ((match pos with DFresh => DFresh | _ => DU end, rem),
+     match pos with DP1 => PFullU u | _ => PAny end)
+  | _, _ => ((DU, []), PPanic)          (* an outcome of the wrong sort: d_step never produces one *)
+  end.
+
+Fixpoint observe (d : bytes -> dres) (ps : dpos * bytes) (h : list dop) (outs : list dout) : list pobs :=
+  match h, outs with
+  | op :: h', o :: outs' => let '(ps', ob) := obs_step d ps op o in ob :: observe d ps' h' outs'
+  | _, _ => []
+  end.
+
 Record hstate := mkH {
   h_c : cstate wview; h_d : dstate lview;
   h_cpos : cpos; h_cur : N; h_sink : bytes; h_acc : bytes;
@@ -381,7 +472,7 @@ Record hstate := mkH {
 Inductive hop :=
 | HCReset (k : N) | HCWrite (b : bytes) | HCClose
 | HDResetSink (k : N) | HDResetLit (src : bytes) (cls : N) (y : bytes)
-| HDRead (n : option N) | HDClose.
+| HDRead (n : option N) | HDClose | HDReadN (n : N).
 
 Definition sx_ok : sx := L [B (bs "ok")].
 Definition sx_any : sx := L [B (bs "any")].
@@ -389,6 +480,14 @@ Definition sx_okflag (b : bool) : sx := L [B (bs "ok"); sx_bool b].
 Definition sx_ures (u : ures) : sx :=
   match u with UOk => sx_ok | UErr => sx_err "e" | UCrash => sx_crash end.
 Definition sx_any_u (u : ures) : sx := match u with UCrash => sx_crash | _ => sx_any end.
+Definition sx_pobs (ob : pobs) : sx :=
+  match ob with
+  | PFullU u => sx_ures u
+  | PFlag b => sx_okflag b
+  | PErrR => sx_err "e"
+  | PAny => sx_any
+  | PPanic => sx_crash
+  end.
 
 Fixpoint find_sink (k : N) (l : list (N * (bytes * bytes))) : option (bytes * bytes) :=
   match l with [] => None | (k', v) :: l' => if k =? k' then Some v else find_sink k l' end.
@@ -404,15 +503,12 @@ Definition toy_src (k : wkind) (src : bytes) (cls : N) (y : bytes) : bytes :=
 Definition toy_dec_of (k : wkind) (s : bytes) : dres :=
   match k with KIdent => Body s false | _ => toy_dec s end.
 
-Definition h_reset_d (k : wkind) (st : hstate) (s : bytes) (cls : N) (y : bytes) : hstate * sx * bool :=
-  let '(d', o) := toy_d_step k st.(h_d) (DReset s) in
-  let u := match o with OU u => u | OR _ => UCrash end in
-  let pos := match u with
-             | UOk => match cls with 1 => DP1 | 2 => DP2 | _ => DU end
-             | _ => DU end in
-  (mkH st.(h_c) d' st.(h_cpos) st.(h_cur) st.(h_sink) st.(h_acc) st.(h_sinks) pos
-       match u with UOk => y | _ => [] end,
-   sx_ures u, match u with UCrash => true | _ => false end).
+(* one decompressor operation on the stand-in, projected *)
+Definition h_dop (k : wkind) (st : hstate) (op : dop) : hstate * sx * bool :=
+  let '(d', o) := toy_d_step k st.(h_d) op in
+  let '((pos', rem'), ob) := obs_step (toy_dec_of k) (st.(h_dpos), st.(h_rem)) op o in
+  (mkH st.(h_c) d' st.(h_cpos) st.(h_cur) st.(h_sink) st.(h_acc) st.(h_sinks) pos' rem',
+   sx_pobs ob, is_crash o).
 
 (* Write / Close on a library writer that never had a destination: left open by the contract,
    not a case (the identity compressor is this repository's code and is covered) *)
@@ -453,33 +549,12 @@ Definition h_step (k : wkind) (st : hstate) (op : hop) : option (hstate * sx * b
   | HDResetSink id =>
     match find_sink id st.(h_sinks) with
     | None => None
-    | Some (content, acc) => Some (h_reset_d k st content 1 acc)
+    | Some (content, _) => Some (h_dop k st (DReset content))
     end
-  | HDResetLit src cls y => Some (h_reset_d k st (toy_src k src cls y) cls y)
-  | HDRead n =>
-    let '(d', o) := toy_d_step k st.(h_d) (DRead n) in
-    let r := match o with OR r => r | OU _ => RCrash end in
-    let full := match st.(h_dpos), n with DP1, _ => true | DP2, None => true | _, _ => false end in
-    let pos' := match st.(h_dpos), r with
-                | DP1, ROk _ => DP1 | DFresh, _ => DFresh | _, _ => DU end in
-    let want := take n st.(h_rem) in
-    let rem' := match r with
-                | ROk y => if (length y <=? length st.(h_rem))%nat then skipn (length y) st.(h_rem) else []
-                | _ => st.(h_rem) end in
-    Some (mkH st.(h_c) d' st.(h_cpos) st.(h_cur) st.(h_sink) st.(h_acc) st.(h_sinks) pos' rem',
-          match r with
-          | RCrash => sx_crash
-          | ROk y => if full then sx_okflag (bytes_eqb y want) else sx_any
-          | RErr => if full then sx_err "e" else sx_any
-          end,
-          match r with RCrash => true | _ => false end)
-  | HDClose =>
-    let '(d', o) := toy_d_step k st.(h_d) DClose in
-    let u := match o with OU u => u | OR _ => UCrash end in
-    let full := match st.(h_dpos) with DP1 => true | _ => false end in
-    let pos' := match st.(h_dpos) with DFresh => DFresh | _ => DU end in
-    Some (mkH st.(h_c) d' st.(h_cpos) st.(h_cur) st.(h_sink) st.(h_acc) st.(h_sinks) pos' st.(h_rem),
-          (if full then sx_ures u else sx_any_u u), match u with UCrash => true | _ => false end)
+  | HDResetLit src cls y => Some (h_dop k st (DReset (toy_src k src cls y)))
+  | HDRead n => Some (h_dop k st (DRead n))
+  | HDClose => Some (h_dop k st DClose)
+  | HDReadN n => Some (h_dop k st (DReadN n))
   end.
 
 Definition h_init (k : wkind) : hstate :=
@@ -507,6 +582,7 @@ Definition un_hop (s : sx) : option hop :=
   | L [I 5%Z] => Some (HDRead None)
   | L [I 6%Z; I n] => Some (HDRead (Some (Z.to_N n)))
   | L [I 7%Z] => Some HDClose
+  | L [I 8%Z; I n] => Some (HDReadN (Z.to_N n))
   | _ => None
   end.
 
@@ -523,6 +599,86 @@ Definition run_c20_hist (args : list sx) : sx :=
       do r <- h_run k (h_init k) ops;
       ret (L r)
   | _ => None end).
+
+(* the same history on the decompressor the wire tracer hands out for the NAME of the encoding
+   (tracer.GetDecompressor: 2 = the name as registered, 3 = in upper case) — same wrappers *)
+Definition run_c20_trhist (args : list sx) : sx :=
+  or_bad (match args with
+  | [I enc; I ctor; ops] =>
+    do ops <- un_listof un_hop ops;
+    if ((enc <? 1) || (6 <? enc))%Z then None
+    else if negb (Z.eqb ctor 2 || Z.eqb ctor 3) then None
+    else
+      do k <- get_kind enc;
+      do r <- h_run k (h_init k) ops;
+      ret (L r)
+  | _ => None end).
+
+(* raw_http_body.go WriteRawMessageContents / WriteRawStreamContents: GetCompressor(e); Reset(w);
+   Write(payload); Close — for a payload that is present, the empty one included.  Reported: an
+   error for an unknown enum value, else "a fresh reader decodes the output to the payload". *)
+Definition run_c20_rawrt (args : list sx) : sx :=
+  or_bad (match args with
+  | [I e; I _; B payload] =>
+    match get_kind e with
+    | None => ret (sx_err "e")
+    | Some k =>
+      do r <- h_run k (h_init k) [HCReset 0; HCWrite payload; HCClose];
+      ret (nth 2 r sx_crash)
+    end
+  | _ => None end).
+
+(* LIVE sequences through connect-go's pools (reference server: request bodies; reference client:
+   response bodies): each item is one message handled with the pool protocol on the reused
+   instances — valid: compressed by the pooled compressor, Reset / ReadAll / Close / Reset(NoBody) on
+   the pooled decompressor; corrupted (one bit flipped, or cut): a source that cannot be positioned
+   or fails in the body, same protocol.  Reported per item: valid -> the projected ReadAll ("decoded
+   equals what was sent"); corrupted -> (any) unless something panicked.  By session_independent /
+   library_independent the result does not depend on which class the corruption falls in. *)
+Definition live_payload (n idx : Z) : bytes := repeat (Z.to_N (idx mod 251)) (Z.to_nat (n mod 40)).
+Definition nobody : hop := HDResetLit [] 0 [].
+Definition live_item (idx : Z) (it : sx) : option (list hop * bool) :=
+  match it with
+  | L [I 0%Z; I n] =>
+    Some ([HCReset (Z.to_N idx); HCWrite (live_payload n idx); HCClose;
+           HDResetSink (Z.to_N idx); HDRead None; HDClose; nobody], true)
+  | L [I 1%Z; I _; I c] | L [I 2%Z; I _; I c] =>
+    if Z.even c then Some ([HDResetLit [] 0 []; nobody], false)
+    else Some ([HDResetLit [] 2 [7]; HDRead None; HDClose; nobody], false)
+  | _ => None
+  end.
+Fixpoint live_run (k : wkind) (st : hstate) (idx : Z) (items : list sx) : option (list sx) :=
+  match items with
+  | [] => Some []
+  | it :: items' =>
+    do oi <- live_item idx it;
+    let '(ops, valid) := oi in
+    (fix go (st : hstate) (ops : list hop) (flag : sx) {struct ops} : option (list sx) :=
+       match ops with
+       | [] => do r <- live_run k st (idx + 1)%Z items'; ret ((if valid then flag else sx_any) :: r)
+       | op :: ops' =>
+         do x <- h_step k st op;
+         let '(st', out, crashed) := x in
+         if crashed then ret [sx_crash]
+         else go st' ops' (match op with HDRead None => out | _ => flag end)
+       end) st ops sx_any
+  end.
+Definition run_c20_live (args : list sx) : sx :=
+  or_bad (match args with
+  | [I alg; L items] =>
+    if ((alg <? 2) || (6 <? alg))%Z then None
+    else
+      do k <- get_kind alg;
+      do r <- live_run k (h_init k) 0 items;
+      ret (L r)
+  | _ => None end).
+(* one server stream: valid messages n1 n2 ..., then possibly one corrupted *)
+Definition run_c20_cstream (args : list sx) : sx :=
+  match args with
+  | [I alg; L ns; L bad] =>
+    run_c20_live [I alg; L (map (fun n => L [I 0%Z; n]) ns ++ match bad with [] => [] | _ => [L bad] end)]
+  | _ => sx_bad
+  end.
 
 Definition run_c20_enum (args : list sx) : sx :=
   or_bad (match args with
@@ -573,4 +729,9 @@ Definition c20_table : list (bytes * (list sx -> sx)) :=
     (bs "c20.check", run_c20_check);
     (bs "c20.server", run_c20_server);
     (bs "c20.client", run_c20_client);
-    (bs "c20.raw", run_c20_raw) ].
+    (bs "c20.raw", run_c20_raw);
+    (bs "c20.trhist", run_c20_trhist);
+    (bs "c20.rawrt", run_c20_rawrt);
+    (bs "c20.live", run_c20_live);
+    (bs "c20.clive", run_c20_live);
+    (bs "c20.cstream", run_c20_cstream) ].
